@@ -5,7 +5,7 @@ import importlib, sys
 from vlib import Ob
 OBLIGATIONS = []
 seen = set()
-for p in ('C01', 'C02', 'C03', 'C04', 'C07', 'C08', 'C10', 'C12', 'C13', 'C16', 'C17', 'C18', 'C11', 'C20', 'C06'):
+for p in ('C01', 'C02', 'C03', 'C04', 'C07', 'C08', 'C09', 'C10', 'C12', 'C13', 'C16', 'C17', 'C18', 'C11', 'C20', 'C06'):
     try:
         m = importlib.import_module(p)
     except ImportError:
